@@ -213,3 +213,58 @@ func VerifC07_CmdTarIndexCancel_E() {
 		vAssert(os.IsNotExist(rerr), "tar -i failed but left an index file")
 	}
 }
+
+// VerifC13_CmdTarOverwrite_E: `desync tar <catar> <dir>` (whole runTar, plain archive output)
+// onto a path that does not exist, or already holds a shorter or a longer file: afterwards the
+// file is exactly the archive (nothing of an older, longer file follows the root's goodbye table).
+func VerifC13_CmdTarOverwrite_E() {
+	dir := vTempDir()
+	os.Mkdir(dir+"/src", 0755)
+	os.WriteFile(dir+"/src/a", []byte("hello"), 0644)
+	var full bytes.Buffer
+	vAssert(desync.Tar(context.Background(), &full, desync.NewLocalFS(dir+"/src", desync.LocalFSOptions{})) == nil, "reference tar")
+	switch vChoose("previous-file", 3) {
+	case 1:
+		os.WriteFile(dir+"/out.catar", []byte("short"), 0644)
+	case 2:
+		os.WriteFile(dir+"/out.catar", make([]byte, full.Len()+64), 0644)
+	}
+	var opt tarOptions
+	addStoreOptions(&opt.cmdStoreOptions, pflag.NewFlagSet("verif", pflag.ContinueOnError))
+	opt.n = 1
+	opt.inFormat = "disk"
+	vSchedFixed(true)
+	err := runTar(context.Background(), opt, []string{dir + "/out.catar", dir + "/src"})
+	vCover("returned")
+	vAssert(err == nil, "tar of a small tree failed")
+	b, rerr := os.ReadFile(dir + "/out.catar")
+	vAssert(rerr == nil && bytes.Equal(b, full.Bytes()), "the archive file is not exactly the archive (bytes of an older file left behind?)")
+}
+
+// VerifC07_CmdRunExtractCancel_E: the whole `desync extract` command with each of its output
+// options (--in-place, --print-stats) and a cancellation before the start or at any scheduling
+// point: a nil result means the destination holds the complete blob.
+func VerifC07_CmdRunExtractCancel_E() {
+	blob, opt, args, dir := verifCmdExtractSetup()
+	opt.inPlace = vChoose("in-place", 2) == 1
+	opt.printStats = vChoose("print-stats", 2) == 1
+	stdout = &bytes.Buffer{}
+	vFSYield(false)
+	vSchedBlockFixed(true)
+	ctx, cancel := context.WithCancel(context.Background())
+	defer cancel()
+	switch vChoose("cancel", 3) {
+	case 1:
+		cancel()
+	case 2:
+		go cancel()
+	}
+	err := runExtract(ctx, opt, args)
+	vCover("returned")
+	b, rerr := os.ReadFile(dir + "/out")
+	if err == nil {
+		vAssert(rerr == nil && string(b) == string(blob), "extract reported success but the destination is not the complete blob (interrupted?)")
+	} else if !opt.inPlace {
+		vAssert(os.IsNotExist(rerr), "failed/interrupted extract left something at a destination path that did not exist")
+	}
+}
